@@ -33,6 +33,7 @@ bool in_range(const RefRange& rr, const VM& ref, float maxc, bool is_float) {
   LD c = std::max<LD>(maxc, 1);
   if (rr.prefix_max * c > hi || ref.m > hi) return false;
   if (rr.prefix_min < lo) return false;
+  if (rr.elem_min < lo || rr.elem_max > hi) return false;  // every basis value is stored in the working precision before it is multiplied
   return true;
 }
 
